@@ -115,8 +115,8 @@ type dOp struct {
 	Bcast bool   `json:"bcast,omitempty"`
 	Srv   string `json:"srv,omitempty"` // decline/release: ours other
 	D     int    `json:"d,omitempty"`   // tick: 0 = +1 min, 1 = +5 h
-	VC    int    `json:"vc,omitempty"` // vendor class (option 60): 0 none, 1 "MSFT 5.0", 2 "PXEClient:Arch:00000:UNDI:002001", 3 "android-dhcp-13"
-	LT    int    `json:"lt,omitempty"` // requested lease time (option 51): 0 none, 1 ten minutes, 2 infinite - the ACK's own lease time is what binds
+	VC    int    `json:"vc,omitempty"`  // vendor class (option 60): 0 none, 1 "MSFT 5.0", 2 "PXEClient:Arch:00000:UNDI:002001", 3 "android-dhcp-13"
+	LT    int    `json:"lt,omitempty"`  // requested lease time (option 51): 0 none, 1 ten minutes, 2 infinite - the ACK's own lease time is what binds
 	Spoof bool   `json:"spoof,omitempty"`
 	FMAC  int    `json:"fmac,omitempty"` // foreign: MAC index
 }
@@ -611,7 +611,7 @@ func runDHCPOn(tb drv.TB, rec *drv.Rec, sub string, h dhcpHistory, or dhcpOracle
 			if op.D == 2 { // half an hour: a lease acknowledged less than three and a half hours ago still runs
 				d = 30 * time.Minute
 			}
-			led.expire(d) // the ticker frees what will have run out by then (it looks ahead: no time passes)
+			led.expire(d)                // the ticker frees what will have run out by then (it looks ahead: no time passes)
 			for i := range led.offered { // an offer is only good for seconds
 				if led.offered[i].ok {
 					led.offered[i].ok, led.offered[i].expired = false, true
@@ -626,7 +626,7 @@ func runDHCPOn(tb drv.TB, rec *drv.Rec, sub string, h dhcpHistory, or dhcpOracle
 			// (with the fourth, a lease acknowledged just before a 3 h 03 min step is 25 s past its end: "recently expired")
 			d := []time.Duration{6 * time.Second, time.Hour + 7*time.Minute, 3*time.Hour + 3*time.Minute, 57*time.Minute + 25*time.Second}[op.D%4]
 			led.elapsed += d
-			led.expire(0) // a lease that has run out is over, whether or not the server has noticed yet
+			led.expire(0)                // a lease that has run out is over, whether or not the server has noticed yet
 			for i := range led.offered { // an offer is only good for seconds
 				if led.offered[i].ok {
 					led.offered[i].ok, led.offered[i].expired = false, true
